@@ -148,6 +148,19 @@ theorem C13_nothing_to_sign_is_ready (d : Device) :
     simp [Device.prepare, Device.finalizeIfComplete, Device.responseReady, Device.getNext,
       Device.retrieve, staged, he]
 
+/-- `prepare_response` supersedes whatever was pending: from ANY state - awaiting, half signed, a finished response not yet
+collected - the device is afterwards signing exactly the given documents with nothing signed yet, or (nothing to sign) the
+empty response is staged.  This is the predicate `prepareOk` that the check evaluates on the real device after every
+prepare_response (with the documents computed from the request). -/
+theorem C13_prepare_supersedes (d : Device) (docs : List Nat) (h : atMax d.encCtr = false) :
+    prepareOk docs (d.prepare docs).st = true := by
+  cases docs with
+  | nil => simp [Device.prepare, Device.finalizeIfComplete, h, prepareOk]
+  | cons a l =>
+    simp only [Device.prepare, Device.finalizeIfComplete, prepareOk]
+    simp
+    intro x hx; exact Or.inr hx
+
 /-- FULL-STRENGTH: in every reachable state of every call sequence, a Signing state has an
 unsigned document (it offers a payload); i.e. the response is ready exactly when no unsigned
 document remains, and nothing is ever stuck waiting for an invented signature. -/
